@@ -61,7 +61,8 @@ def gen_net(rng, p=0.6):
         return None
     net = {"seg": list(rng.choice(SEG_CHOICES))}
     if rng.random() < 0.25:
-        net["eintr"] = sorted(rng.sample(range(6), rng.randint(1, 2)))
+        # piece indices preceded by an EINTR; a repeated index means several EINTRs in a row
+        net["eintr"] = sorted(rng.choice(range(6)) for _ in range(rng.randint(1, 4)))
     return net
 
 
